@@ -3,7 +3,7 @@ import os, re
 
 LEAN_MODULE = "RemocModel.Props.C09"
 LEAN_EXES = ["wire"]
-HARNESS_BINS = ["wire"]
+HARNESS_BINS = ["wire", "mux"]
 THEOREMS = [
     "Remoc.Wire.decode_encode",
     "Remoc.Wire.encode_injective",
@@ -17,12 +17,16 @@ THEOREMS = [
     "Remoc.Wire.frame_fits_fails_with_ids",
     "Remoc.Wire.hello_exceeds_budget_small_chunk",
 ]
-RULE = ("unit differential: messages of all 15 kinds in rotation with boundary/random field values, all flag "
+RULE = ("(1) unit differential: messages of all 15 kinds in rotation with boundary/random field values, all flag "
         "combinations, port lists of 0..40 entries with/without ids -> real to_vec bytes must equal spec encode; "
         "byte strings (valid, truncated at every position, trailing bytes, one byte changed, flag-byte sweep, random) "
         "-> real read result (message or error kind) must equal spec decode, and whatever the real decoder accepts is "
         "re-encoded on both sides. A case is non-trivial if it is an enc line of a message with at least one field or "
-        "a dec line of at least 2 bytes; distinct = distinct trace line.")
+        "a dec line of at least 2 bytes; distinct = distinct trace line. (2) on the wire: a real endpoint handshakes with a spec peer "
+        "announcing version 1..4 (script-injected Hello), opens ports through its client with default and custom ids, sends port "
+        "batches with default/custom ids split over several frames, data, closes; every frame it emits must be the canonical spec "
+        "encoding of a message and OpenPort/PortData must carry exactly forPeer(version, api message) - no id flag below version 3, "
+        "the right ids from version 3 (counted as non-trivial: id-relevant frames).")
 TRUSTED_BASE = [
     "M_wire (lean/RemocModel/Wire/Model.lean) is a hand-written, pinned statement of the v3 layout; it is not generated from msg.rs",
     "hook chmux::verif_hooks (feature `verif`) forwards to MultiplexMsg::to_vec/read unchanged",
@@ -75,7 +79,42 @@ def run(ctx, replay=None):
                       "One line of the differential trace on which the real wire codec and the Lean spec of protocol "
                       "version 3 disagree (left of '|' is the input, right the real result; 'spec=' is the model's):\n\n%s\n\n"
                       "replay: echo '<the part after ::>' | /verif/lean/.lake/build/bin/wire\n" % d)
+    # ---- on the wire: a real endpoint talking to a spec peer that announces version 1..4
+    peer_frames = id_frames = 0
+    if not replay:
+        n2 = 600 if ctx.tier == "quick" else 20000
+        rc2, err2, trace2 = ctx.harness("mux", ["gen", "wirepeer", n2], out_path=os.path.join(ctx.workdir, "wirepeer.trace"),
+                                        seed=ctx.seed * 1000 + 900)
+        if rc2 != 0:
+            ctx.violation("mux harness crashed", "mux-harness-crash", err2[-3000:], name="mux-crash.txt", no_input=True)
+        else:
+            rc2, lines2 = ctx.driver("wire", trace2)
+            end2 = [l for l in lines2 if l.startswith("END")]
+            if end2:
+                m2 = re.search(r"frames=(\d+) idframes=(\d+)", end2[-1])
+                peer_frames, id_frames = int(m2.group(1)), int(m2.group(2))
+            for d in [l for l in lines2 if l.startswith("DIFF")][:20]:
+                tail = d.split("::", 1)[0]
+                kind = "peer-ids" if "peer the spec sends" in d else ("peer-undecodable" if "rejects" in d else "peer-noncanonical")
+                tname = re.search(r"(wirepeer-\d+)", d)
+                script = ""
+                if tname:
+                    with open(trace2) as f:
+                        on = False
+                        for line in f:
+                            if line.startswith("trace "):
+                                on = line.split()[1] == tname.group(1)
+                            elif on and line.startswith("op "):
+                                script += line[3:]
+                ctx.violation("frames emitted by a real endpoint deviate from protocol v3 / version negotiation: " + tail,
+                              "wire-" + kind,
+                              "# a real endpoint handshaking with a spec peer emitted a frame that the v3 spec does not allow\n# %s\n%s"
+                              % (d, script))
+            total += peer_frames
+            nontrivial += id_frames
     ctx.coverage.update({
+        "peer_frames_checked": peer_frames,
+        "peer_id_carrying_frames_checked": id_frames,
         "evaluations": total,
         "distinct_nontrivial": nontrivial,
         "samples": samples,
